@@ -114,7 +114,14 @@ def run(prog: Program, rep: Report, tier: str) -> None:
     st = I2.new_state()
     st.minlen[MSG] = 159
     o2 = I2.run(pfi, {pfi.params[0]: ("sym", "device_callback", "callable"), pfi.params[1]: msg2}, st)
-    acc2 = [o for o in o2 if not (o.kind == "return" and not B.warns(o) and not B.callbacks(o) and any(e.target.startswith("logger.debug") for e in B.logs(o)) and len(o.state.events) == 1)]
+    def _rejected(o: Any) -> bool:
+        # the gate-false path of this frame: guarded by the negated gate (any number of debug logs, nothing else)
+        if gate_cond is not None:
+            ng = neg(gate_cond)
+            if ng in o.state.pc or all(x in o.state.pc for x in flatten(ng, "and")) or any(neg(x) in o.state.pc for x in flatten(gate_cond, "and")):
+                return True
+        return o.kind == "return" and not B.warns(o) and not B.callbacks(o) and len(o.state.events) == 1 and any(e.target.startswith("logger.debug") for e in B.logs(o))
+    acc2 = [o for o in o2 if not _rejected(o)]
     if not acc2:
         rep.bad("R6.3", "unknown model reaches the builder", pwhere, "no gate-true path for a frame with an unknown model code", key="R6.3|nopath")
     n_raise = [o for o in acc2 if o.kind == "raise"]
